@@ -15,7 +15,7 @@ use std::collections::{BTreeMap, BTreeSet};
 
 pub const NAMES: &[&str] = &["a", "b", "c", "d", "f", "g", "fs", "r", "s"];
 /// names the generator uses for parameters and do-block locals
-pub const LOCAL_NAMES: &[&str] = &["x", "y", "t", "m", "n", "k", "o", "v", "w", "xs", "acc", "more", "rest", "deep"];
+pub const LOCAL_NAMES: &[&str] = &["x", "y", "t", "m", "n", "k", "o", "v", "w", "xs", "acc", "more", "rest", "deep", "zt", "zf", "zr", "zo", "zz", "zk"];
 
 #[derive(Clone, Debug, Serialize, Deserialize, PartialEq)]
 pub enum Fault {
@@ -787,6 +787,8 @@ pub struct Obs {
     pub shadow_mismatch: Vec<String>,
     /// reads of a bound name that do not give its value
     pub context_mismatch: Vec<String>,
+    /// scope sentinels that do not give their known answer
+    pub sentinel_mismatch: Vec<String>,
 }
 
 #[derive(Clone, Debug, Serialize, Deserialize)]
@@ -855,6 +857,36 @@ fn probe_sources(root: &str, path: &str, args: &[blots_core::values::LambdaArg])
     out
 }
 
+/// Fixed programs with known answers about the freshness of call and block scopes: every
+/// invocation of a callback, every call and every do-block starts from a scope of its own, so a
+/// name bound in one invocation is neither visible to nor in the way of the next. Evaluated in
+/// every session state the engine reaches (after every statement, after every injected failure).
+/// (program, literal it must equal) - `None` = must fail.
+const SCOPE_SENTINELS: &[(&str, Option<&str>)] = &[
+    ("map([1, 2, 3], (x) => (zt = x) + 1)", Some("[2, 3, 4]")),
+    ("map([1, 2], (x, i) => (zt = i) + x)", Some("[1, 3]")),
+    ("filter([1, 2, 3], (x) => (zt = x) > 1)", Some("[2, 3]")),
+    ("reduce([1, 2, 3], (acc, x) => (zt = acc + x), 0)", Some("6")),
+    ("every([1, 2], (x) => (zt = x) > 0)", Some("true")),
+    ("some([1, 2], (x) => (zt = x) > 5)", Some("false")),
+    ("[1, 2, 3] via ((x) => (zt = x) * 2)", Some("[2, 4, 6]")),
+    ("[1, 2, 3] where ((x) => (zt = x) > 2)", Some("[3]")),
+    ("sort_by([3, 1, 2], (x) => (zt = x))", Some("[1, 2, 3]")),
+    ("keys(group_by([1, 2, 3], (x) => to_string((zt = x) % 2)))", Some("[\"1\", \"0\"]")),
+    ("count_by([\"a\", \"b\", \"a\"], (x) => (zt = x))", Some("{a: 2, b: 1}")),
+    ("5 into ((x) => (zt = x) + 1)", Some("6")),
+    ("do { zf = (x) => (zt = x) + 1; return [zf(1), zf(2)] }", Some("[2, 3]")),
+    ("((zt) => zt + 1)(1) + ((zt) => zt + 2)(1)", Some("5")),
+    ("do { zt = 1; return zt } + do { zt = 2; return zt }", Some("3")),
+    ("((...zr) => (zt = len(zr)))(1, 2) + ((...zr) => (zt = len(zr)))(1)", Some("3")),
+    ("[((zo?) => zo)(4), ((zo?) => zo)()]", Some("[4, null]")),
+    ("map([1, 2, 3], (x) => if x > 1 then zt else (zt = x))", None),
+    ("[1, 2, 3] via ((x) => if x > 1 then zt else (zt = x))", None),
+    ("[((zt) => 1)(1), zt]", None),
+    ("do { zt = 1; return 1 } + zt", None),
+    ("[((zo?) => 1)(4), zo]", None),
+];
+
 /// Ways of reading the bound name `n` that must all give its value.
 fn context_reads(n: &str) -> Vec<String> {
     vec![
@@ -920,6 +952,29 @@ impl Model {
                 let r = sess.probe(n);
                 self.stats.inc("probes");
                 o.probes.insert(("<unbound>".to_string(), n.to_string()), (if r.0 == Status::Ok { Status::Ok } else { Status::Err }, None));
+            }
+        }
+        if with_probes {
+            for (src, want) in SCOPE_SENTINELS {
+                let got = sess.probe(src);
+                self.stats.inc("probes");
+                self.stats.inc("scope_sentinels");
+                if matches!(got.0, Status::Panic | Status::NotRun) {
+                    continue;
+                }
+                match want {
+                    Some(lit) => {
+                        let w = sess.probe(lit);
+                        if w.0 == Status::Ok && got != w {
+                            o.sentinel_mismatch.push(format!("`{}` gives {:?}, not {}", src, got, lit));
+                        }
+                    }
+                    None => {
+                        if got.0 == Status::Ok {
+                            o.sentinel_mismatch.push(format!("`{}` succeeds with {:?}: a name bound in one call or block is visible outside it", src, got.1));
+                        }
+                    }
+                }
             }
         }
         // the value observed through a bound name is the same in whatever context it is read:
@@ -1088,6 +1143,10 @@ impl Model {
                     }
                 }
             }
+        }
+        // 0e. every call and block starts from a fresh scope
+        if let Some(m) = after.sentinel_mismatch.first() {
+            self.fail("call-scope-not-fresh", gi, m.clone());
         }
         // 0d. a bound name reads the same in every context
         if let Some(m) = after.context_mismatch.first() {
